@@ -139,8 +139,47 @@ def inputs(rep, t: str, rng: random.Random, per_space: int) -> List[Tuple[str, s
     import c18
     for _ in range(per_space // 2):
         stmts = rng.sample(list(c18.STD_STMT), rng.choice((1, 2, 3)))
-        rec = {"stmts": stmts, "place": rng.choice(["top", "infunc", "mixed"]), "resolve": []}
+        place = rng.choice(["top", "infunc", "mixed"] + (["branch_if", "branch_else", "try_ok"] if len(stmts) == 2 else []))
+        ran = stmts[:1] if place in ("branch_if", "try_ok") else stmts[1:] if place == "branch_else" else stmts
+        rec = {"stmts": stmts, "place": place, "resolve": [[i, None] for i in ran]}
         out.append((f"imports-std:{len(out)}", c18.std_client(rec), {}))
         out.append((f"imports-client:{len(out)}", f"from {rng.choice(['mid', 'pkg', 'pkg.lib', 'nowhere'])} import {rng.choice(['*', 'alpha', 'alpha as al, beta'])}\n\n\n"
                     "def use():\n    return [alpha]\n\n\nprint(use())\n", {}))
+    # Dataflow.tla programs (python-side sampling of the grammar the spec enumerates), as a function and as module-level code
+    import dataflow
+
+    def leaf(inloop: bool):
+        kinds = ["asg", "asg", "aug", "use"] + (["break", "continue"] if inloop else [])
+        k = rng.choice(kinds)
+        if k == "asg":
+            return {"k": "asg", "w": rng.choice("ab"), "r": rng.choice([[], ["a"], ["b"]])}
+        if k == "aug":
+            return {"k": "aug", "w": rng.choice("ab")}
+        if k == "use":
+            return {"k": "use", "r": [rng.choice("ab")]}
+        return {"k": k}
+
+    def block(depth: int, inloop: bool):
+        stmts = []
+        for _ in range(rng.choice((1, 1, 2))):
+            if depth > 0 and rng.random() < 0.6:
+                k = rng.choice(["if", "while", "for", "with"])
+                s = {"k": k, "r": rng.choice([[], ["a"], ["b"]]), "body": block(depth - 1, inloop or k in ("while", "for")),
+                     "orelse": [leaf(inloop)] if k != "with" and rng.random() < 0.3 else []}
+                if k in ("for", "with"):
+                    s["w"] = rng.choice("ab")
+                stmts.append(s)
+            else:
+                stmts.append(leaf(inloop))
+        while len(stmts) > 1 and stmts[0]["k"] in ("break", "continue"):
+            stmts.pop(0)
+        return stmts
+    for _ in range(per_space):
+        rec = {"prog": block(2, False) + [{"k": "use", "r": [rng.choice("ab")]}]}
+        text = dataflow.program(rec) if rng.random() < 0.5 else dataflow.with_vector(dataflow.program_module(rec), rng.randrange(len(dataflow.MODULE_VECTORS)))
+        try:
+            compile(text, "<x>", "exec")
+        except SyntaxError:
+            continue
+        out.append((f"dataflow:{len(out)}", text, {}))
     return out
